@@ -371,11 +371,19 @@ inline const std::vector<Param> &deps_params() {
 }
 
 struct AppDesc { const char *name; const rtosc::Ports *ports; const std::vector<Param> *params; std::function<void *()> make; std::function<void(void *)> destroy; };
+// application 4: a component used as an application of its own: its root table carries rSelf(..., rEnabledBy(on))
+inline const std::vector<Param> &lane_params() {
+    static std::vector<Param> P; if (!P.empty()) return P; auto yes = [](void *) { return true; };
+    P.push_back({"/on", 1, 'T', [](void *o, int) { return vb(((Lane *)o)->on); }, [](void *, int) { return vb(false); }, yes, 0, 1, 0, {}});
+    P.push_back({"/amp", 1, 'i', [](void *o, int) { return vi(((Lane *)o)->amp); }, [](void *, int) { return vi(5); }, [](void *o) { return ((Lane *)o)->on; }, 0, 9, 0, {}});
+    return P;
+}
 inline const AppDesc &app_desc(int which) {
-    static AppDesc d[3] = { {"flatapp", &Flat::ports, &flat_params(), [] { return (void *)new Flat; }, [](void *p) { delete (Flat *)p; }},
+    static AppDesc d[4] = { {"flatapp", &Flat::ports, &flat_params(), [] { return (void *)new Flat; }, [](void *p) { delete (Flat *)p; }},
                             {"synthapp", &Synth::ports, &synth_params(), [] { return (void *)new Synth; }, [](void *p) { delete (Synth *)p; }},
-                            {"depsapp", &Deps::ports, &deps_params(), [] { return (void *)new Deps; }, [](void *p) { delete (Deps *)p; }} };
-    return d[((which % 3) + 3) % 3];
+                            {"depsapp", &Deps::ports, &deps_params(), [] { return (void *)new Deps; }, [](void *p) { delete (Deps *)p; }},
+                            {"laneapp", &Lane::ports, &lane_params(), [] { return (void *)new Lane; }, [](void *p) { delete (Lane *)p; }} };
+    return d[((which % 4) + 4) % 4];
 }
 
 } // namespace sapp
